@@ -21,7 +21,7 @@ import time
 from ..common import Rng
 from .. import lang
 from ..lang import COQ_HEADER, CtxSpec, N, Unsupported, clist, cval_of_py, py_of_arg
-from ..c13gen import Gen13, small_ctx
+from ..c13gen import Gen13, sized_call_program, small_ctx
 from ..c13lib import AnnExporter, Facts, check_trace
 from ..c13trace import compile_traced, run_traced
 from ..langgen import ProgGen
@@ -44,6 +44,8 @@ HEADER = COQ_HEADER + ('From FpyV Require Import Num.Out Analysis.ClassLattice A
 KEY_FOR_SHADOW = 'for-target-rebinds-variable'
 KEY_STALE_COND = 'partial-eval-stale-while-condition'
 KEY_SIGNED_ZERO = 'partial-eval-merges-signed-zeros'
+KEY_RAGGED = 'ragged-captured-list-typed-by-first-row'
+KEY_TYLEN = 'type-length-conflated-by-unionfind'
 
 
 # Witness programs (always run first): one per listed defect, one plain ladder.
@@ -247,6 +249,65 @@ for _sig, _body, _args in [
     CORPUS.append((f'import fpy2 as fp\n\n@fp.fpy\ndef main({_sig}):\n    with fp.FP64:' + _body, _args))
 
 
+# a context chosen at run time inside a statically known one: nothing in its body is a compile-time constant
+for _hdr, _body in [
+    ('@fp.fpy(ctx=fp.FP64)\ndef main(p):', """
+    with fp.MPFloatContext(p):
+        t = 1 / 3
+        u = t + 0.1
+    return u
+"""),
+    ('@fp.fpy\ndef main(p):', """
+    with fp.FP32:
+        with fp.MPSFloatContext(p, -8):
+            t = 1 / 3
+        v = t * 3
+    return v
+"""),
+    ('@fp.fpy(ctx=fp.REAL)\ndef main(p):', """
+    c = 1 / 3
+    with fp.MPFloatContext((3 if p < 4 else 7)):
+        t = c + 0.1
+        while t < 1:
+            t = t + c
+    return t
+"""),
+]:
+    CORPUS.append(('import fpy2 as fp\n\n' + _hdr + _body, [[N.fin(2)], [N.fin(3)], [N.fin(5)], [N.fin(9)], [N.nan()]]))
+
+# callees whose list parameter has a dimension name, returning it directly / in a tuple / in a nested tuple, called
+# with a list unrelated to the caller's own dimension of the same name
+from ..c13gen import _SIZED_PRELUDE
+for _g, _call in [('return xs', 'ys = g(b)'), ('return (xs, len(xs))', '(ys, n) = g(b)'),
+                  ('return (0.5, (xs, 1))', '(z, (ys, o)) = g(b)')]:
+    CORPUS.append((_SIZED_PRELUDE + f'''@fp.fpy
+def g(xs: list[fp.Real]):
+    {_g}
+
+_sized(g, xs='N')
+
+@fp.fpy
+def main(a: list[fp.Real], b: list[fp.Real]):
+    {_call}
+    s = sum(ys) + len(a)
+    return ys
+
+_sized(main, a='N')
+''', [[_L1(1) + _L1(3), _L1(5)], [[], _L1(5) + _L1(7)], [_L1(1), _L1(2)]]))
+
+# a captured (free-variable) list whose rows have different lengths
+CORPUS.append(('''import fpy2 as fp
+
+TABLE = [[1.0, 2.0], [3.0, 4.0, 5.0]]
+
+@fp.fpy
+def main(x):
+    row = TABLE[1]
+    s = sum(row)
+    return s + x
+''', [[N.fin(1)]]))
+
+
 class _Timeout(Exception):
     pass
 
@@ -392,9 +453,35 @@ def has_signed_zero_phi(F):
     return False
 
 
-def classify(b, shadow, stale_nodes, signed_zero=False):
+def has_ragged_capture(fn):
+    """Does the function capture a (free-variable) list whose elements are lists of different shapes?"""
+    def shape(v):
+        if isinstance(v, list):
+            return ('L', len(v), tuple(shape(x) for x in v))
+        if isinstance(v, tuple):
+            return ('T', tuple(shape(x) for x in v))
+        return 's'
+
+    def ragged(v):
+        if isinstance(v, (list, tuple)):
+            if isinstance(v, list) and len({shape(x) for x in v}) > 1:
+                return True
+            return any(ragged(x) for x in v)
+        return False
+    try:
+        return any(ragged(fn.env[str(v)]) for v in fn.ast.free_vars if str(v) in fn.env)
+    except Exception:  # noqa: BLE001
+        return False
+
+
+def classify(b, shadow, stale_nodes, signed_zero=False, ragged=False):
     """The known-finding key of a traced fact violation, or None."""
     node = b['node']
+    if ragged and (b['analysis'].startswith('type_infer') or b['analysis'].startswith('array_size')):
+        return KEY_RAGGED
+    if b['analysis'] == 'type_infer.equal_length':
+        # symbolic lengths in TypeInfer's types (not ArraySizeInfer's size classes, which are checked separately)
+        return KEY_TYLEN
     first = node.split(' ')[0] if node else ''
     if b['analysis'].startswith('partial_eval') and id(b.get('obj')) in stale_nodes:
         return KEY_STALE_COND
@@ -407,13 +494,14 @@ def classify(b, shadow, stale_nodes, signed_zero=False):
 
 def analyse_and_trace(ck, fn, prog_src, arg_sets, callers, info):
     """Facts + traced runs of one function.  Returns (Facts, runs, shadow, known_keys)."""
-    from ..c13lib import same_value
+    from ..c13lib import check_result, same_value
     F = Facts(fn)
     for name, err in F.errors.items():
         ck.count(f'analysis-raised:{name}:{err.split(":")[0]}')
     shadow = shadowed_for_targets(fn.ast, F.du)
     stale_nodes = nested_while_cond_nodes(fn.ast)
     signed_zero = has_signed_zero_phi(F)
+    ragged = has_ragged_capture(fn)
     known_keys = set()
     seen_bad = set()
     pyfn, rec, _ = compile_traced(fn, F.du)
@@ -440,13 +528,16 @@ def analyse_and_trace(ck, fn, prog_src, arg_sets, callers, info):
         ck.evaluations += 1
         ck.count('run:' + out[0] + ('' if out[0] == 'ok' else ':' + type(out[1]).__name__))
         ck.count('events', len(events))
-        for b in check_trace(F, events):
+        found = check_trace(F, events)
+        if out[0] == 'ok':
+            found += check_result(F, pa, out[1])
+        for b in found:
             sig_b = (b['analysis'], b['node'])
             if sig_b in seen_bad or len(seen_bad) >= 25:
                 ck.count('fact-violated(repeats not reported):' + b['analysis'])
                 continue
             seen_bad.add(sig_b)
-            key = classify(b, shadow, stale_nodes, signed_zero)
+            key = classify(b, shadow, stale_nodes, signed_zero, ragged)
             known_keys.add(key)
             ck.count('fact-violated:' + b['analysis'])
             ck.violation(f"{b['analysis']}: {b['what']}",
@@ -507,6 +598,11 @@ def run(ck):
             text, arg_sets = CORPUS[idx + len(CORPUS)]
             prog = type('CorpusProgram', (), {'load': staticmethod(lambda d, m, text=text: lang.load_module(d, m, text)),
                                               'source': staticmethod(lambda m='m', text=text: text)})
+        elif idx % 10 == 7:
+            text, arg_sets = sized_call_program(rng)
+            ck.count('feature:sized-call')
+            prog = type('TextProgram', (), {'load': staticmethod(lambda d, m, text=text: lang.load_module(d, m, text)),
+                                            'source': staticmethod(lambda m='m', text=text: text)})
         elif use_langgen:
             g = ProgGen(rng, malformed=False)
             prog, sig = g.program()
